@@ -8,6 +8,6 @@ s = re.sub(r"<!-- wave3 rows begin -->.*?<!-- wave3 rows end -->", "<!-- wave3 r
 metas = [json.loads((d / "meta.json").read_text()) for d in pathlib.Path("/verif/seeded").iterdir() if int(d.name.split("-")[1]) >= 7 and (d / "meta.json").exists()]
 n = len(metas)
 yes = sum(1 for m in metas if m["detected_by_check"] == "yes")
-s = re.sub(r"Of the \d+\nreturned, \d+ were caught at once and \d+ after", f"Of the {n}\nreturned so far, {yes} were caught at once and {n - yes} after", s)
+s = re.sub(r"Of the \d+\nreturned(?: so far)?, \d+ were caught at once and \d+ after", f"Of the {n}\nreturned, {yes} were caught at once and {n - yes} after", s)
 open(p, "w").write(s)
 print(n, yes)
